@@ -391,13 +391,22 @@ func (s *pState) flush(cw *cwriter.Writer, height int, iter <-chan *Bar) error {
 		}
 	}()
 
+	var err error
+
 	for b := range iter {
 		frame := <-b.frameCh
 		verifhook.Event(verifhook.CtFlushBar, b, frame.shutdown, len(frame.rows), frame.rmOnComplete, frame.noPop, frame.err != nil)
+		if err != nil {
+			// Keep iterating after an error: every bar of this cycle is being
+			// rendered and may be in the middle of width sync, dropping the
+			// cycle here would leave those bars blocked forever.
+			pushes = append(pushes, pushData{b, false})
+			continue
+		}
 		if frame.err != nil {
-			close(s.iterDrop)
+			err = frame.err
 			b.cancel()
-			return frame.err // b.frameCh is buffered it's ok to return here
+			continue
 		}
 		var usedRows int
 		for i := len(frame.rows) - 1; i >= 0; i-- {
@@ -432,6 +441,10 @@ func (s *pState) flush(cw *cwriter.Writer, height int, iter <-chan *Bar) error {
 		default:
 			pushes = append(pushes, pushData{b, false})
 		}
+	}
+
+	if err != nil {
+		return err
 	}
 
 	for i := len(rows) - 1; i >= 0; i-- {
